@@ -126,6 +126,30 @@ def decide(spec, tier, seed):
             if groups:
                 from .specs import Stream
                 streams.insert(0, Stream("corpus", None, compare=spec.compare_default, groups=groups))
+        # one long-lived process: 20 000 requests (thorough: 300 000; each request makes several library calls) drawn with repetition from all the
+        # stand-alone line requests of this property, mixed, in ONE oracle process and in this order, the
+        # first few hundred asked again at the end — a call counter that wraps at 2^8 or 2^16, a cache
+        # that is full, something an error path left behind for the next valid call
+        pool = []
+        for st in streams:
+            if not getattr(st, 'groups', None) and st.weight is None and len(st.requests or []) >= 200:
+                pool.append(st)
+        if pool and not os.environ.get("VERIF_NO_SOAK"):
+            from .specs import Stream
+            cmp_of = {}
+            n_soak = 20000 if tier == "quick" else 300000
+            g = []
+            for k in range(n_soak):
+                st = pool[k % len(pool)]
+                rq = st.requests[rng.randrange(len(st.requests))]
+                cmp_of.setdefault(rq, st.compare)
+                g.append(rq)
+            g += g[:300]
+
+            def soak_compare(req, impl, model, _c=cmp_of):
+                f = _c.get(req)
+                return f(req, impl, model) if f else impl == model
+            streams.append(Stream("one-long-process", None, compare=soak_compare, groups=[g]))
         for st in streams:
             if not getattr(st, 'groups', None) and not os.environ.get("VERIF_NO_SHUFFLE"):
                 # requests that stand alone are asked in a seeded random order (an answer must not depend on
